@@ -43,6 +43,8 @@ func c12Gen(r *rand.Rand, tier string) []spec.Case {
 			// (a host process of its own: whatever one launch leaves behind in process-wide state, e.g. cached TLS
 			// sessions, is not disturbed by other cases' connections before the second launch)
 			out = append(out, spec.Case{Kind: "solo:" + pr + "/relaunch-impostor", P: spec.MustJSON(spec.C12Case{Proto: pr, Path: "relaunch-impostor", Launch: "cmd"})})
+			out = append(out, spec.Case{Kind: "solo:" + pr + "/relaunch-impostor-nocert", P: spec.MustJSON(spec.C12Case{Proto: pr, Path: "relaunch-impostor-nocert", Launch: "cmd"})})
+			out = append(out, spec.Case{Kind: "solo:" + pr + "/relaunch-impostor-shortcert", P: spec.MustJSON(spec.C12Case{Proto: pr, Path: "relaunch-impostor-shortcert", Launch: "cmd"})})
 		}
 		// the plugin side of AutoMTLS on its own: started directly with PLUGIN_CLIENT_CERT in unusual shapes
 		for _, pr := range []string{"netrpc", "grpc"} {
@@ -76,7 +78,7 @@ func c12Judge(c spec.Case, evs []spec.Event, d *Death) CaseResult {
 		res.Verdict = "violated"
 		res.Violations = append(res.Violations, Violation{Key: "C12:" + key, Msg: fmt.Sprintf("%s [proto=%s path=%s impostor=%s launch=%s]", msg, p.Proto, p.Path, p.Impostor, p.Launch)})
 	}
-	if p.Path == "relaunch-impostor" {
+	if strings.HasPrefix(p.Path, "relaunch-impostor") {
 		res.Sample = map[string]any{"path": p.Path, "proto": p.Proto, "launch1": o.Positive, "launch2": o.HostOps}
 		res.Counters["impostor_cases"]++
 		if !o.PositiveOK {
@@ -88,7 +90,7 @@ func c12Judge(c spec.Case, evs []spec.Event, d *Death) CaseResult {
 			}
 		}
 		if o.AnyOK {
-			viol("impostor-answered:earlier-launch-certificate", fmt.Sprintf("with one ClientConfig used for a second launch, the host completed an RPC against a plugin that announced a fresh certificate but serves with the certificate of the earlier launch: %v", o.HostOps))
+			viol("impostor-answered:earlier-launch-certificate", fmt.Sprintf("with one ClientConfig used for a second launch, the host completed an RPC against a plugin that announced %s but serves with the certificate of the earlier launch: %v", map[string]string{"relaunch-impostor": "a fresh certificate", "relaunch-impostor-nocert": "no certificate", "relaunch-impostor-shortcert": "a three-character certificate field"}[p.Path], o.HostOps))
 		}
 		return res
 	}
